@@ -443,6 +443,14 @@ def check_tbr(mods, c, exp, rows, meta, uc, combos, with_cost, int_dtype, matche
     refit_prelude(m, df, variant=variant)
     fdf, kw, target = relabel(df, variant)
     m.fit(fdf, target, **kw)
+    if len(rows) % 2 == 0:
+      # what causal_effect() returns is the caller's: it is overwritten in place before anything else is asked
+      for pers in ((m.periods.test, m.periods.cooldown), (m.periods.test,)):
+        try:
+          eff = m.causal_effect(pers)
+          eff.iloc[:] = 0.0
+        except Exception:  # pylint: disable=broad-except
+          pass
     dist = m.causal_cumulative_distribution()
     got_df = float(dist.args[0])
     loc = np.asarray(dist.kwds['loc'], dtype=float).flatten()
